@@ -1,12 +1,14 @@
 #!/bin/sh
-# tools/process_mutants.sh <PROP> ...   confirm each delivered mutant in its scratch worktree, then run the
-# property's check against it in /repo (restored afterwards); append results to run/mutants.log
+# tools/process_mutants.sh <PROP> ...   (env MUTOUT=/tmp/mutout, TAG=m, LOG=/verif/run/mutants.log)
+# Confirm each delivered mutant in its scratch worktree (/tmp/mut/<PROP>), then run the property's check
+# against it in /repo (restored afterwards); append one line per mutant to $LOG.
+MUTOUT="${MUTOUT:-/tmp/mutout}"; TAG="${TAG:-m}"; LOG="${LOG:-/verif/run/mutants.log}"
 for P in "$@"; do
   for i in 1 2 3; do
-    [ -f /tmp/mutout/$P/patch$i.diff ] || continue
-    C=$(/verif/tools/confirm_mutant.sh /tmp/mut/$P /tmp/mutout/$P/patch$i.diff /tmp/mutout/$P/demo$i.rs ${P}_$i 2>&1 | grep '^{' | tail -1)
-    R=$(/verif/tools/try_mutant.sh $P /tmp/mutout/$P/patch$i.diff 2>&1 | grep -E "VIOLATION|tier=|exit=|INFRA" | tr '\n' ' ')
-    echo "$P $i CONFIRM $C CHECK $R" >> /verif/run/mutants.log
+    [ -f $MUTOUT/$P/patch$i.diff ] || continue
+    C=$(/verif/tools/confirm_mutant.sh /tmp/mut/$P $MUTOUT/$P/patch$i.diff $MUTOUT/$P/demo$i.rs ${P}_$TAG$i 2>&1 | grep '^{' | tail -1)
+    R=$(/verif/tools/try_mutant.sh $P $MUTOUT/$P/patch$i.diff 2>&1 | grep -E "VIOLATION|tier=|exit=|INFRA|apply" | tr '\n' ' ')
+    echo "$P $TAG$i $MUTOUT CONFIRM $C CHECK $R" >> $LOG
   done
 done
-echo "DONE $@" >> /verif/run/mutants.log
+echo "DONE $@" >> $LOG
